@@ -22,6 +22,14 @@ func streamBookkeepingRule(c *Ctx) {
 	deliver := c.FnObj(pM, "stream", "deliverLocked")
 	isValid := c.FnObj(pJ, "ID", "IsValid")
 	nS, nR := 0, 0
+	// the id of the response being written: third argument of the deliverLocked call
+	var respVar types.Object
+	for _, v := range g.callVertices(deliver) {
+		if dc := wr.CallsIn(g.Node(v), deliver, false); len(dc) == 1 && len(dc[0].Args) >= 3 {
+			respVar = wr.ObjOf(dc[0].Args[2])
+		}
+	}
+	c.Need(respVar != nil, "Write: response id variable handed to deliverLocked")
 	for _, f := range c.funcsWithLits(pM) {
 		for _, call := range f.AllCalls(f.Body, false) {
 			if f.BuiltinName(call) != "delete" || len(call.Args) != 2 {
@@ -35,8 +43,12 @@ func streamBookkeepingRule(c *Ctx) {
 				guards := fg.GuardsAt(fg.VertexOf(call))
 				ok := root.Obj == wr.Obj && hasAtom(guards, func(a Atom) bool {
 					ce, isC := a.E.(*ast.CallExpr)
-					return isC && a.Val && f.IsCallTo(ce, isValid) && exprStr(ce.Fun) == "responseTo.IsValid"
-				}) && exprStr(call.Args[1]) == "responseTo"
+					if !isC || !a.Val || !f.IsCallTo(ce, isValid) {
+						return false
+					}
+					sel, isS := ast.Unparen(ce.Fun).(*ast.SelectorExpr)
+					return isS && f.ObjOf(sel.X) == respVar
+				}) && f.ObjOf(call.Args[1]) == respVar
 				c.Check(ok, "delete(requestStreams):"+f.Name(), f, call, "a request→stream association is removed only in Write, for the response's own id (guards: %s)", atomsString(guards))
 			case f.IsField(call.Args[0], streams):
 				nS++
@@ -62,7 +74,16 @@ func streamBookkeepingRule(c *Ctx) {
 							ds = d
 						}
 					})
-					ok := ds != nil && hasAtom(rg.GuardsAt(rg.VertexOf(ds)), func(a Atom) bool { return !a.Val && exprStr(a.E) == "ok" }) && f.heldLocal(call)[lkConn]
+					// the comma-ok of the lookup in c.streams
+					var found types.Object
+					for _, w := range Writes(root.Body, false) {
+						if as, isAs := w.Stmt.(*ast.AssignStmt); isAs && len(as.Lhs) == 2 && len(as.Rhs) == 1 {
+							if m, _, isIx := indexOf(as.Rhs[0]); isIx && root.IsField(m, streams) {
+								found = root.ObjOf(as.Lhs[1])
+							}
+						}
+					}
+					ok := ds != nil && found != nil && hasAtom(rg.GuardsAt(rg.VertexOf(ds)), func(a Atom) bool { return !a.Val && root.ObjOf(a.E) == found }) && f.heldLocal(call)[lkConn]
 					c.Check(ok, "delete(streams):acquireStream-temp", f, call, "the temporary replay entry is removed (under c.mu) only on the branch that created it")
 				default:
 					c.Fail("delete(streams):"+f.Name(), f, call, "unexpected removal of a logical stream")
@@ -204,7 +225,8 @@ func rulesC08(c *Ctx) {
 						local = f.ObjOf(as.Rhs[0])
 					}
 					roles["resume"]++
-					okLocal := local != nil && local == types.Object(f.Param("lastIdx"))
+					idxParam := f.ParamWhere(func(t types.Type) bool { b, ok := t.(*types.Basic); return ok && b.Kind() == types.Int })
+					okLocal := local != nil && idxParam != nil && local == types.Object(idxParam)
 					c.Check(okLocal && f.heldLocal(w)[lkStream], "lastIdx=:acquireStream", f, w, "on resume lastIdx is re-based to the local replay cursor, under the stream lock")
 					// the replay loop advances that cursor once per replayed event, before formatting its id
 					okLoop := false
